@@ -32,7 +32,6 @@ import numpy as np
 
 warnings.filterwarnings('ignore')
 
-import rsatoolbox  # noqa: E402
 from rsatoolbox.rdm import RDMs  # noqa: E402
 import rsatoolbox.rdm as rr  # noqa: E402
 import importlib  # noqa: E402
@@ -400,8 +399,6 @@ def check_move_record(rec, vcat, nc):
     s0 = sigma_array(sg0)
     s1 = sigma_array(rec['sg']) if rec['s'] else None
     tol = tol_for(m, sgc)
-    if tol == 0.0:
-        tol = 0.0
     a0, b0, a1, b1 = rec['a0'], rec['b0'], rec['a'], rec['b']
     out = []
     case0 = {'method': m, 'move': k, 'side': rec['side'], 'arg': rec['arg'], 'a0': a0, 'b0': b0,
